@@ -144,7 +144,18 @@ var c20ValueNotes = []string{
 	"desc.seen is generated with 'when' set whenever it is present (both construction sites in topic.go set it)",
 }
 
+var c20ExclCache = map[string]*c20Excl{}
+
 func c20Excluded(path string) *c20Excl {
+	if e, ok := c20ExclCache[path]; ok {
+		return e
+	}
+	e := c20ExcludedSlow(path)
+	c20ExclCache[path] = e
+	return e
+}
+
+func c20ExcludedSlow(path string) *c20Excl {
 	ps := strings.Split(path, ".")
 	for i := range c20NotCarried {
 		qs := strings.Split(c20NotCarried[i].Pattern, ".")
